@@ -714,6 +714,30 @@ func (x *Exec) evalCall(env *SpecEnv, e *spec.Call) SVal {
 			specFail("isptr: %v", err)
 		}
 		return SVal{T: smt.Eq(TypeOf(arg(1).T), smt.IntC(int64(E.TypeTag(types.NewPointer(gt)))))}
+	case "boundmethod":
+		// boundmethod(recv, "m"): the method value recv.m (the term the engine gives the closure `recv.m`)
+		sl, ok := e.Args[1].(*spec.StrLit)
+		if !ok {
+			specFail("boundmethod: second argument must be a method name string")
+		}
+		rv := arg(0)
+		ms := E.Prog.MethodSets.MethodSet(rv.GT)
+		sel := ms.Lookup(env.Pkg, sl.Val)
+		if sel == nil {
+			for i := 0; i < ms.Len(); i++ {
+				if ms.At(i).Obj().Name() == sl.Val {
+					sel = ms.At(i)
+				}
+			}
+		}
+		if sel == nil {
+			specFail("boundmethod: %s has no method %s", rv.GT, sl.Val)
+		}
+		mf := E.Prog.MethodValue(sel)
+		if mf == nil {
+			specFail("boundmethod: no function for %s", sl.Val)
+		}
+		return SVal{T: smt.App("bound$"+sanitizeName(mf.String()), smt.Fn, rv.T), GT: sel.Type()}
 	case "fcall":
 		// fcall("Field", fn, args...): result of calling the function value held in struct field Field
 		sl, ok := e.Args[0].(*spec.StrLit)
